@@ -163,8 +163,19 @@ def r09(run):
     for n, c in per["^"]:
         loops = [m for m in branch_nodes["^"] if m.kind == "iter" and any(x is c for x in walk_shallow(m.stmt))]
         for lp in loops:
-            rets = [x for x in walk_shallow(lp.stmt) if isinstance(x, ast.Return)]
-            run.check("R09c", f, "`^` branch: the conversion loop visits every argument (no return inside)", not rets,
+            viol_nodes = [m for m, cc in fa.all_calls() if call_attr(cc) == "handle_error" and cc.args
+                          and "OneOfViolatedError" in unparse(cc.args[0])]
+            rets = []
+            for x in walk_shallow(lp.stmt):
+                if isinstance(x, ast.Return):
+                    rets.append(x)
+                elif isinstance(x, ast.Break):
+                    bn = fa.cfg.stmt_nodes.get(id(x))
+                    # leaving the loop early is fine once the violation has been reported, never on the accepting path
+                    if bn is None or not any(fa.cfg.dominates(v, bn) for v in viol_nodes):
+                        rets.append(x)
+            run.check("R09c", f, "`^` branch: the conversion loop visits every argument (no return / break on the "
+                                 "accepting path)", not rets,
                       construct="`^` branch returns inside the conversion loop",
                       message="the `^` branch returns from inside its conversion loop: later arguments are never "
                               "tested against the input", necessity="an input accepted by two arguments is accepted "
